@@ -1072,19 +1072,27 @@ class SelectorWorld:
             m["twin_score_min"], m["twin_score_max"] = min(chosen), max(chosen)
             m["twin_score_first"] = chosen[0]
 
+    @staticmethod
+    def _epsr(Xp):
+        """Working precision of the caller's data relative to double precision (1 for
+        float64 and integer input, ~5e8 for float32: the library keeps float32)."""
+        return float(np.finfo(Xp.dtype).eps / EPS) if Xp.dtype.kind == "f" else 1.0
+
     def _tau_for(self, cls, Xp, yp, p):
         info = SEL[cls]
         fam = info["fam"]
         axis = info["axis"]
+        epsr = self._epsr(Xp)
+        Xp = np.asarray(Xp, dtype=float)
         if fam in ("fps", "voronoi"):
             P = Xp if axis == 0 else Xp.T
-            return fps_tau(P)
+            return fps_tau(P) * epsr
         if fam == "pcovfps":
-            Y = yp.reshape(len(yp), -1)
+            Y = np.asarray(yp, dtype=float).reshape(len(yp), -1)
             mix = p.get("mixing", 0.5)
             M = ref_pcovr_kernel(mix, Xp, Y) if axis == 0 else ref_pcovr_covariance(mix, Xp, Y)
-            return 64.0 * EPS * 2.0 * float(np.max(np.abs(np.diag(M)))) * max(Xp.shape)
-        return 1e-9
+            return 64.0 * EPS * 2.0 * float(np.max(np.abs(np.diag(M)))) * max(Xp.shape) * epsr
+        return 1e-9 * epsr
 
     def c08_twin(self, name, obj, m, op, rec, X, y, n_before):
         cls = m["cls"]
@@ -1099,8 +1107,8 @@ class SelectorWorld:
         )
         if fam in ("cur", "pcovcur"):
             # domain of C08: rank above the number of selections (DESIGN 4, iii)
-            sv = np.linalg.svd(Xp, compute_uv=False)
-            rank = int(np.sum(sv > sv[0] * max(Xp.shape) * EPS * 16)) if sv.size and sv[0] > 0 else 0
+            sv = np.linalg.svd(np.asarray(Xp, dtype=float), compute_uv=False)
+            rank = int(np.sum(sv > sv[0] * max(Xp.shape) * EPS * self._epsr(Xp) * 16)) if sv.size and sv[0] > 0 else 0
             need = int(getattr(obj, "n_selected_", 0)) + int(p.get("k", 1)) + 1
             if rank < need or p.get("recompute_every", 1) not in (0, 1):
                 self.count("out_of_domain_rank_or_refresh")
@@ -1203,6 +1211,12 @@ class SelectorWorld:
                 self.count("degenerate_spectrum_skipped")
                 return
             atol = 1e-7 if not arp_fault else 1e-5
+            if self._epsr(Xp) > 1.0:
+                # single precision input: the library works in float32 (eps 1.2e-7); scores
+                # of a non-degenerate spectrum (relative gap > 1e-3, see _degenerate) are
+                # reproducible to ~eps/gap
+                atol = 5e-3
+                self.probe("single_precision_scores_compared")
             if pa.shape != pb.shape or np.any(np.abs(pa - pb) > atol):
                 w = int(np.argmax(np.abs(pa - pb))) if pa.shape == pb.shape else -1
                 V(
@@ -1231,6 +1245,8 @@ class SelectorWorld:
     def _degenerate_initial(self, Xp, yp, p, fam, axis):
         try:
             k = int(p.get("k", 1))
+            lim = 1e-3 if self._epsr(Xp) > 1.0 else 1e-6
+            Xp = np.asarray(Xp, dtype=float)
             if fam == "cur":
                 gap, _ = spectrum_gap(Xp, k, symmetric=False)
             else:
@@ -1238,7 +1254,7 @@ class SelectorWorld:
                 mix = p.get("mixing", 0.5)
                 M = ref_pcovr_kernel(mix, Xp, Y) if axis == 0 else ref_pcovr_covariance(mix, Xp, Y)
                 gap, _ = spectrum_gap(M, k, symmetric=True)
-            return gap < 1e-6
+            return gap < lim
         except Exception:  # noqa: BLE001
             return True
 
@@ -1246,6 +1262,7 @@ class SelectorWorld:
         """CUR-family scores are arbitrary when the k-th and (k+1)-th value coincide."""
         try:
             k = int(p.get("k", 1))
+            lim = 1e-3 if self._epsr(np.asarray(t.X_current_)) > 1.0 else 1e-6
             Xc = np.asarray(t.X_current_, dtype=float)
             if fam == "cur":
                 gap, top = spectrum_gap(Xc, k, symmetric=False)
@@ -1255,7 +1272,7 @@ class SelectorWorld:
                 mix = p.get("mixing", 0.5)
                 M = ref_pcovr_kernel(mix, Xc, Y) if axis == 0 else ref_pcovr_covariance(mix, Xc, Y)
                 gap, top = spectrum_gap(M, k, symmetric=True)
-            return gap < 1e-6
+            return gap < lim
         except Exception:  # noqa: BLE001
             return True
 
